@@ -24,6 +24,10 @@ fn full_vocab() -> Vec<String> {
     let extra = [
         "\\par", "\\undefined", "\\a", "~", "{", "}", "#", "$", "&", "^", "_", "%", " ", "\n", "=", "-", "+", "`", "'", "\"", ".", ":", "<", "a", "f", "p", "t", "é", "by", "to", "pt", "fil", "plus", "true", "0", "1", "15", "16", "255", "256", "32767", "32768",
         "55296", "1114111", "1114112", "2147483647", "2147483648", "-1", "^^M", "^^@", "\u{7f}", "1pt", "#1",
+        // both sides of every limit the parsers know (value-1, value, value+1; the rest is in the list above):
+        // 16 (streams, category codes), 128, 256 (u8, \\toks), 4096, 16384 (pt), 32768 (registers, \\mathcode),
+        // the surrogate block 55296..57343, char::MAX = 1114111, 2^30 (sp), 2^31
+        "17", "127", "128", "129", "257", "4095", "4096", "4097", "16383", "16384", "16385", "32769", "55295", "55297", "57343", "57344", "57345", "1114110", "1073741823", "1073741824", "1073741825", "2147483646",
         // numbers whose length is the hazard: 17 / 18 / 19 / 30 fraction digits, 21 integer digits,
         // octal and hexadecimal constants at and beyond 2^31-1
         "1.12345678901234567", "1.123456789012345678", ".9999999999999999999pt", "0.123456789012345678901234567890", "100000000000000000000", "'17777777777", "'20000000000", "'777777777777", "\"7FFFFFFF", "\"80000000", "\"FFFFFFFFF",
@@ -35,7 +39,7 @@ fn full_vocab() -> Vec<String> {
 fn core_vocab() -> Vec<String> {
     [
         "\\count", "\\dimen", "\\skip", "\\toks", "\\the", "\\def", "\\let", "\\global", "\\advance", "\\multiply", "\\divide", "\\catcode", "\\chardef", "\\countdef", "\\ifnum", "\\ifcase", "\\else", "\\fi", "\\or", "\\expandafter", "\\noexpand",
-        "\\read", "\\input", "\\openin", "\\ifeof", "\\endinput", "\\a", "{", "}", "#", "1", "-", "=", " ", "2147483647", "f", "by", "to", "pt", "é", "1.123456789012345678", "-2147483647",
+        "\\read", "\\input", "\\openin", "\\ifeof", "\\endinput", "\\a", "{", "}", "#", "1", "-", "=", " ", "2147483647", "f", "by", "to", "pt", "é", "1.123456789012345678", "-2147483647", "57343",
     ]
     .iter()
     .map(|s| s.to_string())
